@@ -144,6 +144,8 @@ pub fn shapes(tier: Tier) -> Vec<Shape> {
             out.push(mk(&format!("{}-midtx-del-first-half", name), &big, vec![tx(ops), Action::Reopen], mid));
         }
     }
+    // one uncommitted leaf with more than 2^16 entries (handled by `run_wide`)
+    out.push(mk(&format!("wide-leaf-{}-entries-in-one-transaction", WIDE_N), &d, vec![], vec![]));
     out
 }
 
@@ -174,7 +176,129 @@ pub fn probe_keys(m: &BucketM, extra: &[Bytes]) -> Vec<Bytes> {
     v
 }
 
+/// The "wide leaf" shape: WIDE_N entries put into one bucket by one write transaction (an in-memory
+/// leaf is not split before commit, so slot numbers go beyond 65535), probed inside that
+/// transaction, after commit and after reopening, at slot numbers around powers of two.
+pub const WIDE_N: u32 = 66_000;
+
+fn wide_key(i: u32) -> [u8; 4] {
+    i.to_be_bytes()
+}
+
+fn wide_probe(b: &jammdb::Bucket, stage: &str, reads: &mut u64, mism: &mut Vec<Value>) {
+    let n = WIDE_N;
+    let idxs: Vec<u32> = vec![0, 1, 2, 127, 128, 255, 256, 257, 32767, 32768, 65534, 65535, 65536, 65537, 65538, n - 2, n - 1];
+    let val = |i: u32| -> Vec<u8> { format!("v{}", i).into_bytes() };
+    for &i in &idxs {
+        *reads += 3;
+        // point lookup
+        match b.get_kv(wide_key(i)) {
+            Some(kv) if kv.key() == wide_key(i) && kv.value() == val(i).as_slice() => {}
+            Some(kv) => mism.push(json!(["wide_get", format!("[{}] get_kv(entry {}) returned key {:?} value {:?}", stage, i, kv.key(), String::from_utf8_lossy(kv.value()))])),
+            None => mism.push(json!(["wide_get", format!("[{}] get_kv(entry {}) found nothing", stage, i)])),
+        }
+        // seek to a present key, then the following entries
+        let mut c = b.cursor();
+        let exists = c.seek(wide_key(i));
+        let got: Vec<Vec<u8>> = c.by_ref().take(3).map(|d| d.key().to_vec()).collect();
+        let want: Vec<Vec<u8>> = (i..n.min(i + 3)).map(|j| wide_key(j).to_vec()).collect();
+        if !exists || got != want {
+            mism.push(json!(["wide_seek", format!("[{}] seek(entry {}) returned {} and the next entries are {:?}, expected true and {:?}", stage, i, exists, got, want)]));
+        }
+        // seek to an absent key right after entry i (5 bytes): not found, positioned at a neighbour
+        let mut absent = wide_key(i).to_vec();
+        absent.push(0);
+        let mut c = b.cursor();
+        let exists = c.seek(absent.as_slice());
+        let got: Vec<Vec<u8>> = c.by_ref().take(2).map(|d| d.key().to_vec()).collect();
+        let succ: Vec<Vec<u8>> = (i + 1..n.min(i + 3)).map(|j| wide_key(j).to_vec()).collect();
+        let pred: Vec<Vec<u8>> = (i..n.min(i + 2)).map(|j| wide_key(j).to_vec()).collect();
+        if exists || !(got == succ || got == pred) {
+            mism.push(json!(["wide_seek_absent", format!("[{}] seek(just after entry {}) returned {} and the next entries are {:?}", stage, i, exists, got)]));
+        }
+    }
+    // ranges across the interesting slots
+    for (lo, hi) in [(65530u32, 65545u32), (250, 260), (32760, 32775), (65535, 65537), (0, 3), (n - 3, n)] {
+        *reads += 2;
+        let got: Vec<Vec<u8>> = b.range(wide_key(lo).as_slice()..wide_key(hi).as_slice()).map(|d| d.key().to_vec()).collect();
+        let want: Vec<Vec<u8>> = (lo..hi.min(n)).map(|j| wide_key(j).to_vec()).collect();
+        if got != want {
+            mism.push(json!(["wide_range", format!("[{}] range(entry {} .. entry {}) yields {} entries starting {:?}, expected {} starting {:?}", stage, lo, hi, got.len(), got.first(), want.len(), want.first())]));
+        }
+        let got: Vec<Vec<u8>> = b.range(wide_key(lo).as_slice()..).take(4).map(|d| d.key().to_vec()).collect();
+        let want: Vec<Vec<u8>> = (lo..n.min(lo + 4)).map(|j| wide_key(j).to_vec()).collect();
+        if got != want {
+            mism.push(json!(["wide_range", format!("[{}] range(entry {} ..) starts {:?}, expected {:?}", stage, lo, got, want)]));
+        }
+    }
+    // the full scan: every entry once, ascending, and the end stays the end
+    *reads += 1;
+    let mut c = b.cursor();
+    let mut count = 0u32;
+    let mut bad: Option<String> = None;
+    for d in c.by_ref() {
+        if count >= n + 10 {
+            bad = Some("the scan does not end".into());
+            break;
+        }
+        if d.key() != wide_key(count) && bad.is_none() {
+            bad = Some(format!("entry {} of the scan has key {:?}", count, d.key()));
+        }
+        count += 1;
+    }
+    if bad.is_none() && count != n {
+        bad = Some(format!("the scan yields {} entries of {}", count, n));
+    }
+    if bad.is_none() && c.next().is_some() {
+        bad = Some("next() after the end yields an entry".into());
+    }
+    if let Some(e) = bad {
+        mism.push(json!(["wide_scan", format!("[{}] {}", stage, e)]));
+    }
+}
+
+pub fn run_wide(path: &str) -> Value {
+    let mut mism: Vec<Value> = vec![];
+    let mut reads = 0u64;
+    let r = real::guarded(|| -> Result<(), String> {
+        let _ = std::fs::remove_file(path);
+        let cfg = Cfg::default();
+        let db = cfg.open(path).map_err(|e| format!("{:?}", e))?;
+        {
+            let tx = db.tx(true).map_err(|e| format!("{:?}", e))?;
+            let b = tx.create_bucket("b").map_err(|e| format!("{:?}", e))?;
+            for i in 0..WIDE_N {
+                b.put(wide_key(i), format!("v{}", i)).map_err(|e| format!("put {}: {:?}", i, e))?;
+            }
+            wide_probe(&b, "inside the filling write transaction", &mut reads, &mut mism);
+            drop(b);
+            tx.commit().map_err(|e| format!("commit: {:?}", e))?;
+        }
+        {
+            let tx = db.tx(false).map_err(|e| format!("{:?}", e))?;
+            let b = tx.get_bucket("b").map_err(|e| format!("{:?}", e))?;
+            wide_probe(&b, "after commit", &mut reads, &mut mism);
+        }
+        drop(db);
+        let db = cfg.open(path).map_err(|e| format!("reopen: {:?}", e))?;
+        let tx = db.tx(false).map_err(|e| format!("{:?}", e))?;
+        let b = tx.get_bucket("b").map_err(|e| format!("{:?}", e))?;
+        wide_probe(&b, "after reopening", &mut reads, &mut mism);
+        Ok(())
+    });
+    match r {
+        Ok(Ok(())) => {}
+        Ok(Err(e)) => mism.push(json!(["wide_error", e])),
+        Err(p) => mism.push(json!([crate::runner::panic_class("wide_panic", &p), p])),
+    }
+    let _ = std::fs::remove_file(path);
+    json!({"v": mism, "reads": reads, "nontrivial": reads, "levels": [0, 0, 0], "keys": WIDE_N, "probes": 17})
+}
+
 fn run_shape(sh: &Shape, path: &str) -> Value {
+    if sh.name.starts_with("wide-leaf") {
+        return run_wide(path);
+    }
     let mut mism: Vec<Value> = vec![];
     let mut stats = ProbeStats::default();
     let mut levels = (0, 0, 0);
@@ -276,6 +400,10 @@ pub fn worker(idx: usize) {
             let tier = if v["tier"].as_str() == Some("thorough") { Tier::Thorough } else { Tier::Quick };
             cache = Some((init.to_string(), shapes(tier)));
         }
+        if job.trim() == "wide" {
+            emit("wide");
+            return run_wide(&path).to_string();
+        }
         let shs = &cache.as_ref().unwrap().1;
         let i: usize = job.trim().parse().unwrap();
         emit(&format!("{}", i));
@@ -333,6 +461,32 @@ pub fn run(check: &mut Check) {
     check.cov("worker_restarts", json!(pool.restarts));
 }
 
+/// The wide-leaf probe alone, in a worker process (used by C07 next to its history search).
+pub fn run_wide_check(check: &mut Check) {
+    let scratch = report::scratch_dir();
+    let init = json!({"tier": check.tier.name()}).to_string();
+    let mut pool = Pool::new("enumx", &init, 1, &scratch);
+    pool.job_timeout = std::time::Duration::from_secs(300);
+    let mut res: Option<Value> = None;
+    let mut died: Option<String> = None;
+    pool.run(vec!["wide".to_string()], |_ji, o| match o {
+        Outcome::Done(r) => res = serde_json::from_str::<Value>(&r).ok(),
+        other => died = Some(format!("{:?}", other)),
+    });
+    let tier = check.tier;
+    if let Some(d) = died {
+        check.violation("process_death", &format!("[wide leaf] worker died or hung: {}", d), || json!({"engine": "enumx", "tier": tier.name(), "shape": "wide-leaf", "wide": true}));
+    }
+    if let Some(v) = res {
+        for x in v["v"].as_array().cloned().unwrap_or_default() {
+            let class = x[0].as_str().unwrap_or("").to_string();
+            check.violation(&format!("read:{}", class), &format!("[{} entries put by one write transaction] {}", WIDE_N, x[1].as_str().unwrap_or("")), || json!({"engine": "enumx", "tier": tier.name(), "shape": "wide-leaf", "wide": true}));
+        }
+        check.cov("wide_leaf.entries", json!(WIDE_N));
+        check.cov("wide_leaf.api_calls", v["reads"].clone());
+    }
+}
+
 fn check_seed() -> u64 {
     std::env::var("VERIF_SEED").ok().and_then(|s| s.parse().ok()).unwrap_or(1)
 }
@@ -344,7 +498,7 @@ pub fn replay(v: &Value) -> i32 {
     let tier = if v["tier"].as_str() == Some("thorough") { Tier::Thorough } else { Tier::Quick };
     let shs = shapes(tier);
     let name = v["shape"].as_str().unwrap_or("");
-    let code = match shs.iter().find(|s| s.name == name) {
+    let code = match shs.iter().find(|s| s.name == name || (name == "wide-leaf" && s.name.starts_with("wide-leaf"))) {
         Some(sh) => {
             let r = run_shape(sh, &format!("{}/replay.db", scratch));
             let vs = r["v"].as_array().cloned().unwrap_or_default();
